@@ -62,7 +62,7 @@ check(
     "C02",
     "model_checking",
     "Explicit-state exploration of the group elements (interned objects) reachable by the real operators (*, /, **n, root, prefix application) from generator sets of dimensions, prefixes and units: closure by expression height (height 2 complete from three generator orders; height 3 with one operand of height <= 1, i.e. every expression tree with <= 4 leaves) plus exponent boxes (all ordered pairs) plus the eleven named laws instantiated over everything reached; every transition is compared with an independent free-abelian-group normal form: equal normal form <=> same object.",
-    "Bounds: heights and boxes as stated in the evidence (units at height 3 only in the thorough tier); generators include freshly defined base units, named derived units and SI/IEC prefixes; expressions whose leaves carry prefixes of both bases are compared numerically at 1e-9 (factors exactly). A violation is replayed by re-running the deterministic exploration job that found it.",
+    "Bounds: heights and boxes as stated in the evidence (units at height 3 only in the thorough tier); generators include freshly defined base units, named derived units and SI/IEC prefixes; expressions whose leaves carry prefixes of both bases are compared numerically at 1e-9 (factors exactly). A violation is replayed by re-running the deterministic exploration job that found it. One exploration order defines a new fundamental dimension between level 1 and level 2; the prefix box and the unit generators include exponents beyond the float range (10^-330, 10^-400, 2^-1100).",
     "explicit-state exploration of reachable group elements (height-bounded closure of real operators) vs a free-abelian-group normal form, object identity",
     "BoundedEnumerator",
     "DESIGN.md §4 C02",
@@ -80,7 +80,7 @@ check(
     "C04",
     "exploration",
     "Every ordered pair of equal-dimension unit shapes (tiers T1-T4 over all shipped modules, powers, prefixes, products, quotients, named derived units vs their spellings) and every connected definition graph on 4 synthetic units: whenever in_unit returns, unit identity and magnitude are compared with sizes solved independently, in exact arithmetic, from the intercepted declarations.",
-    "Tolerance 1e-5 per degree on shipped definitions, exact on power-of-two synthetic systems (which also hold opaque speed / frequency units and quotient-defined units in numerators, denominators and cancelling positions); units whose size differs by more than 1e-5 between two derivations from the declarations (C09 finding) and offset scales are excluded and named in the evidence.",
+    "Tolerance 1e-5 per degree on shipped definitions, exact on power-of-two synthetic systems (which also hold opaque speed / frequency units and quotient-defined units in numerators, denominators and cancelling positions); units whose size differs by more than 1e-5 between two derivations from the declarations (C09 finding) and offset scales are excluded and named in the evidence. Further tiers: both sides made of the same units with different exponents (T2s), factors that combine into another dimension with prefixes on either side (T5); each pair is evaluated for 3, Decimal(3), 2.5, Decimal(1.5) in one restored state.",
     "exhaustive enumeration of unit-shape pairs and definition-graph configurations vs exact size oracle",
     "BoundedEnumerator",
     "DESIGN.md §4 C04",
@@ -98,7 +98,7 @@ check(
     "C06",
     "exploration",
     "All pairs of physical values x every re-expression (unit, SI and IEC prefixes) of each operand x operators + - * / ** == <: the SI value of the result must equal the operation on SI values; comparisons must agree with SI values (separated pairs) or with construction (exactly equal pairs).",
-    "Ties are constructed, not filtered: values are separated by >=1e-6 relative or exactly equal by construction.",
+    "Ties are constructed, not filtered: values are separated by >=1e-4 relative or exactly equal by construction (prefix-only re-expressions with integer magnitudes, non-negative integer powers of one base). Products are also observed through the library (unprefixed(), comparisons), with extreme mixed SI/IEC prefixes and prefixed dimensionless operands; temperatures: comparisons, and sums / differences with the right operand re-expressed on every scale; a unit compared before its equivalence is declared.",
     "exhaustive enumeration of re-expressions of operand pairs vs SI-value oracle",
     "BoundedEnumerator",
     "DESIGN.md §4 C06",
@@ -116,7 +116,7 @@ check(
     "C08",
     "model_checking",
     "Explicit-state BFS over all interleavings of equivalence declarations and conversion/comparison queries (each real, on the real caches) up to the depth bound; at every visited state every menu query is evaluated and compared with the same query after the same declarations in a state with no query history (fresh interpreters provide the reference outcomes).",
-    "Bounds: full menu (7 declarations, 18 queries incl. reverse directions and a statically declared system with an asymmetric planner) to depth 3 (quick) / 4 (thorough) plus a probe level (every query appended to every deepest state); core menu (chain of four units + shortcut, 4 queries) to depth 5 / 6 plus probe level; canonical state = declaration sequence + for each query the declaration counts at which it ran; only measured.si is loaded.",
+    "Bounds: full menu (7 declarations, 18 queries incl. reverse directions and a statically declared system with an asymmetric planner) to depth 3 (quick) / 4 (thorough) plus a probe level (every query appended to every deepest state); core menu (chain of four units + shortcut, 4 queries) to depth 5 / 6 plus probe level; canonical state = declaration sequence + for each query the declaration counts at which it ran; only measured.si is loaded. Static part of the world: an asymmetric planner pair, a cycle whose two routes disagree on purpose, an inexact Decimal ratio; World also owns the decimal context.",
     "explicit-state BFS over declaration/query interleavings vs fresh-state reference",
     "HistoryExplorer",
     "DESIGN.md §4 C08",
@@ -143,7 +143,7 @@ check(
     "C11",
     "exploration",
     "All registered prefixes (and pairs) x unit pool x exponents [-4,4] x magnitude alphabet: the prefix identities as object identities (same base) or values (cross base).",
-    "1e-12 same-base, 1e-9 cross-base.",
+    "1e-12 same-base, 1e-9 cross-base; same-base results must carry integer exponents and exact quantify(); prefixed One as an operand; prefixes of powers stripped through the library (unprefixed()).",
     "exhaustive enumeration of prefix x unit x exponent product vs group + size model",
     "BoundedEnumerator",
     "DESIGN.md §4 C11",
@@ -152,7 +152,7 @@ check(
     "C12",
     "exploration",
     "All ordered pairs and triples from per-dimension pools of quantities (separated and exactly-equal re-expressions, int/float/Decimal), levels, measurements and approximately(): reflexivity, symmetry, trichotomy, mirror laws, sorted() of every permutation, hash contract.",
-    "Away from ties by construction; pools: length, mass, time, information, area / volume / per-area written as powers of length units several declared hops apart, and a mixed pool with measurements on four temperature scales judged by an interval model in kelvin.",
+    "Away from ties by construction; pools: length, mass, time, information, area / volume / per-area written as powers of length units several declared hops apart, a temperature ordering pool (both signs on four scales), every named unit pair of a dimension at +-1e-3 of its declared ratio, and a mixed pool with measurements on four temperature scales judged by an interval model in kelvin.",
     "exhaustive enumeration of pairs/triples vs order/interval model",
     "BoundedEnumerator",
     "DESIGN.md §4 C12",
@@ -179,7 +179,7 @@ check(
     "C15",
     "exploration",
     "Every interned dimension, prefix and unit, the C13 unit space, and quantities over it with int/float/Decimal magnitudes through pickle (all protocols), copy, deepcopy, the JSON codecs, pydantic and the SQL composite form; plus two-process histories (dump here, load in a fresh interpreter).",
-    "Quantity JSON inherits the C13 findings (unit stored as text), keyed by the same input-side classes; the loader process reports unusable interned objects and re-evaluates the defining expression for identity.",
+    "Quantity JSON inherits the C13 findings (unit stored as text), keyed by the same input-side classes; the loader process reports unusable interned objects and re-evaluates the defining expression for identity. Codecs: pickle 2-5, copy, deepcopy, explicit JSON codec, installed codecs (plain, with json.loads options, file API), pydantic python/json, SQL composite, __json__/__from_json__; magnitudes include integral and exponent-form Decimals.",
     "exhaustive enumeration of values x codecs, incl. two-process histories",
     "BoundedEnumerator",
     "DESIGN.md §4 C15",
@@ -197,7 +197,7 @@ check(
     "C17",
     "exploration",
     "Every string up to length 4 (quick) / 5 (thorough) over a 22-character alphabet covering every lexer class and 'arbitrary text', every token sequence up to length 7 with extreme lexemes, and all single-token mutations of accepted sequences, through Unit.parse and Quantity.parse: outcome class, determinism, registries unchanged, magnitude type.",
-    "Strings longer than the bound are not covered; short token sequences are also rendered with the full product of lexemes per position (SI / IEC / byte-based / unknown symbols x small and 400-digit exponents). Registry changes are attributed to the rejected input responsible; accepted inputs are not constrained (as the property states).",
+    "Strings longer than the bound are not covered; short token sequences are also rendered with the full product of lexemes per position (SI / IEC / byte-based / unknown symbols x small and 400-digit exponents). Registry changes are attributed to the rejected input responsible; accepted inputs are not constrained (as the property states). Boundary exponents (2e307), 400-digit exponents, 4400-digit literals and 13 unusual characters (unnamed controls, private use, noncharacter, NBSP, look-alikes) are part of the alphabets; the first violation of a batch carries the batch history for its replay.",
     "exhaustive enumeration of all strings / token sequences up to a bound",
     "BoundedEnumerator",
     "DESIGN.md §4 C17",
@@ -215,7 +215,7 @@ check(
     "C19",
     "model_checking",
     "Explicit-state BFS over histories of anonymous construction, naming and failing definition calls (fault menu in every argument position) for dimensions, prefixes and units, checking binding, uniqueness and atomicity invariants over all registries at every state; plus the shipped declarations under every ordered pair of first-imported modules in fresh interpreters.",
-    "Asynchronous exceptions are not in the fault menu.",
+    "Asynchronous exceptions are not in the fault menu. Events include late naming with taken names, a prefix+unit reading looked up before a unit is declared with that symbol, scales (valid / zero point of another dimension / taken symbol), names of derived dimensions, and symbols spelled with compatibility characters.",
     "explicit-state BFS over naming/fault histories; all import orders",
     "HistoryExplorer",
     "DESIGN.md §4 C19",
